@@ -167,9 +167,12 @@ CLAIMED = {
         '(panels and assemblies), solve_sound (reduced solution scattered satisfies every active row, zero elsewhere), linearity; the '
         'shape rows are those of the REGENERATED kernel cfg, proved to be the amplitude-derivative of the series cfuvw evaluates. Ties: '
         'driver correspondence (rows recorded from fg, spsolve answer recorded), virtual-work predicate against the package\'s own uvw for '
-        'panels, assemblies and bays, residual and linearity of the static solution. Two defects repaired (w-only model, bay skin forces).',
+        'panels, assemblies and bays, residual and linearity of the static solution. BAY AND DRIVER: StiffPanelBay.calc_fext (as written: no load factor), the col_start loop of PanelAssembly and the linear Analysis.static / static() '
+        'are in the model (Model/BayLoads.lean) with bay_fext_dot_c_eq_work, bay_fext_offsets, bay_fext_additive, bay_fext_no_load_factor, assembly_fext_incremental_only, static_linear_solves, '
+        'static_linear_in_loads, static_increments; tied by recorded-call correspondences (fg rows, offsets vs the col0 of bay.calc_k0, the reduced system handed to spsolve). '
+        'Two defects repaired (w-only model, bay skin forces), one listed (incrementable forces of stiffener parts ignored by the bay).',
    note='Trusted: Lean kernel, Mathlib, hand model (tied on explored cases), SuperLU as recorded parameter, translator for cfg, '
-        'rounding not modelled. StiffPanelBay.calc_fext checked by the predicate only.',
+        'rounding not modelled; the solver contract (SolvesReduced) is a hypothesis of the static theorems, validated per sample.',
    technique='Lean 4 proof over hand model + regenerated kernel model, driver correspondence, virtual-work oracle', ref='4/C07'),
  'C08': dict(
    text='Pointwise content (one Gauss point) of fkL_num, fkG_num and calc_fint of the flat and cylindrical models REGENERATED from *_num.pyx '
@@ -247,16 +250,16 @@ CLAIMED = {
  'C20': dict(
    text='Hand-written Lean life-cycle state machines (Model/Lifecycle.lean) of Panel, PanelAssembly, StiffPanelBay and ConeCyl: the lazily '
         'derived hidden attributes as provenance tokens, and for every public call what it reads, writes, raises and returns as a function '
-        'of (definition, hidden state); 27 theorems over ALL finite call sequences: the invariant "every hidden attribute is unset or '
+        'of (definition, hidden state; for PanelAssembly also the conn= / finalize= arguments of the call); 32 theorems over ALL finite call sequences: the invariant "every hidden attribute is unset or '
         'canonical" is preserved by every step, hence the result of a successful call is the canonical function of the definition '
         '(history independence, repeat = same result) - proved for the scope in which it is true (partial: zero laminate offset or no '
         'calc_kt_kr; cone with Fc given or already rebuilt), with kernel-checked counter-examples outside it (kt_kr order dependence, '
-        'connection cache, explicit size, bay assertion order, cone lb default load) and an exact characterisation of which calls can be '
-        'first on a fresh object (all known findings). Tie: random call sequences on recording proxies - outcome class, ordered write '
+        'explicit size, bay assertion order, cone lb default load) and an exact characterisation of which calls can be '
+        'first on a fresh object (all known findings); the connection-matrix cache of PanelAssembly was REPAIRED (fix: ad68101) and its counter-example replaced by asm_conn_matches_request / asm_cache_own_finalized / asm_result_is_canonical. Tie: random call sequences on recording proxies - outcome class, ordered write '
         'footprint and hidden-read footprint compared per call with the model; property evaluated on the implementation bit for bit '
         'against fresh-object references; caller arrays checksummed; 1..16 threads for uvw/strain/stress and integratev.',
    note='Trusted: Lean kernel, hand model (tied on explored sequences), numbers not modelled (provenance tokens), OpenMP scheduling / races '
-        'outside the model (thread clauses by execution + C11 chunking theorem), ARPACK start vectors random (1e-8). Nine known findings.',
+        'outside the model (thread clauses by execution + C11 chunking theorem), ARPACK start vectors random (1e-8). 7 known findings.',
    technique='Lean 4 proof (invariant over op sequences) over hand life-cycle model + call-sequence footprint correspondence', ref='4/C20'),
  'C16': dict(
    text='The Lean model of every entry statement of fk0, fk0_cyl, fk0edges, fkG0, fkG0_cyl of all 17 complete-shell linear modules (3900 entries; '
